@@ -53,8 +53,17 @@ func CodeOf(msg string) string {
 	return "?"
 }
 
-// NewPass builds the pass of one package. Diagnostics are appended to *out.
+// NewPass builds the pass of one package. Diagnostics are appended to *out. File contents are withheld
+// (messages without excerpt) unless NewPassSrc is used.
 func NewPass(prog *nd.Prog, pkg string, facts Facts, out *[]analysis.Diagnostic) *analysis.Pass {
+	return newPass(prog, pkg, facts, out, false)
+}
+
+func NewPassSrc(prog *nd.Prog, pkg string, facts Facts, out *[]analysis.Diagnostic) *analysis.Pass {
+	return newPass(prog, pkg, facts, out, true)
+}
+
+func newPass(prog *nd.Prog, pkg string, facts Facts, out *[]analysis.Diagnostic, withSrc bool) *analysis.Pass {
 	return &analysis.Pass{
 		Fset:      prog.Fset(),
 		Files:     prog.Files(pkg),
@@ -64,6 +73,11 @@ func NewPass(prog *nd.Prog, pkg string, facts Facts, out *[]analysis.Diagnostic)
 			*out = append(*out, d)
 		},
 		ReadFile: func(name string) ([]byte, error) {
+			if withSrc {
+				if src, ok := prog.Source(name); ok {
+					return []byte(src), nil
+				}
+			}
 			return nil, errors.New("zzh: file contents withheld (message without excerpt)")
 		},
 		ImportPackageFact: func(p *types.Package, fact analysis.Fact) bool {
@@ -84,8 +98,17 @@ func NewPass(prog *nd.Prog, pkg string, facts Facts, out *[]analysis.Diagnostic)
 
 // Analyze runs reader, ignore reader and the named checkers ("imm","ctor","tonl","pkgo") on one package.
 func Analyze(prog *nd.Prog, cfg *config.Config, pkg string, facts Facts, checkers ...string) Result {
+	return analyze(prog, cfg, pkg, facts, false, checkers...)
+}
+
+// AnalyzeSrc is Analyze with readable source files (messages carry excerpts).
+func AnalyzeSrc(prog *nd.Prog, cfg *config.Config, pkg string, facts Facts, checkers ...string) Result {
+	return analyze(prog, cfg, pkg, facts, true, checkers...)
+}
+
+func analyze(prog *nd.Prog, cfg *config.Config, pkg string, facts Facts, withSrc bool, checkers ...string) Result {
 	var raw []analysis.Diagnostic
-	pass := NewPass(prog, pkg, facts, &raw)
+	pass := newPass(prog, pkg, facts, &raw, withSrc)
 	ann := annotations.ReadAllAnnotations(cfg, pass)
 	ign := ignore.ReadIgnoreAnnotations(cfg, pass)
 	for _, c := range checkers {
